@@ -93,4 +93,155 @@ example : ∃ bs, chunksT 10 [1, 2, 3, 4, 5, 6, 7, 8, 9] [(bytesOfString "X-Sum"
     chunkTrailers 12 (bs ++ [71]) = [(bytesOfString "X-Sum", bytesOfString "abc"), (bytesOfString "Grpc-Message", [])] :=
   ⟨_, rfl, by decide⟩
 
+theorem chunksT_len : ∀ (fuel : Nat) (b : Bytes) (tr : List (Bytes × Bytes)), b.length < fuel → b.length ≤ (chunksT fuel b tr).length
+  | 0, _, _, h => by omega
+  | fuel + 1, b, tr, h => by
+    by_cases hb : b = []
+    · subst hb; simp
+    · have hne : b.isEmpty = false := by cases b <;> simp_all
+      have hpos : 0 < b.length := by cases b <;> simp_all
+      have ih := chunksT_len fuel (b.drop (min 7 b.length)) tr (by simp only [List.length_drop]; omega)
+      simp only [chunksT, hne, Bool.false_eq_true, if_false, List.length_append, List.length_take, List.length_drop] at ih ⊢
+      omega
+
+/-- a chunked request as it travels with trailer fields: request line, header fields, `Transfer-Encoding: chunked`,
+    the chunks, the last chunk, the trailer fields, the empty line -/
+def encReqT (m : Msg) (tr : List (Bytes × Bytes)) : Bytes :=
+  (m.method ++ 32 :: (m.target ++ 32 :: (bytesOfString "HTTP/1." ++ dec m.minor))) ++ [13, 10] ++
+    (encHeaders (m.headers ++ [(bytesOfString "Transfer-Encoding", bytesOfString "chunked")]) ++ crlf ++
+      chunksT (m.body.length + 1) m.body tr)
+
+/-- **Whole requests with trailer fields round-trip**: a well-formed chunked request followed by any well-formed
+    trailer fields and by anything else is read back as that request with the trailer fields added to its header
+    fields (what the handlers report since b67c635), and reading resumes right behind the trailer part. -/
+theorem c03_request_trailers_enc (m : Msg) (hw : WfReq m) (hch : m.framing = .chunked)
+    (tr : List (Bytes × Bytes)) (htr : ∀ h ∈ tr, wfHeader h) (rest : Bytes) :
+    parseRequest (encReqT m tr ++ rest) =
+      some ({ (parsedOf m) with headers := (parsedOf m).headers ++ tr }, rest) := by
+  obtain ⟨hreq, ⟨hm32, hm13⟩, ⟨ht32, ht13⟩, hminor, hhs, hnf, hfr, hst⟩ := hw
+  let ver := bytesOfString "HTTP/1." ++ dec m.minor
+  have hver : versionMinor? ver = some m.minor := by
+    rcases hminor with h | h <;> simp only [ver, h] <;> rfl
+  have hver32 : noByte 32 ver := by rcases hminor with h | h <;> simp only [ver, h] <;> unfold noByte <;> decide
+  have hver13 : noByte 13 ver := by rcases hminor with h | h <;> simp only [ver, h] <;> unfold noByte <;> decide
+  let line := m.method ++ 32 :: (m.target ++ 32 :: ver)
+  have hline13 : ∀ b ∈ line, b ≠ 13 := by
+    intro b hb
+    simp only [line, List.mem_append, List.mem_cons] at hb
+    rcases hb with hb | rfl | hb | rfl | hb
+    · exact hm13 b hb
+    · decide
+    · exact ht13 b hb
+    · decide
+    · exact hver13 b hb
+  have hsplit : splitOnByte 32 line = [m.method, m.target, ver] := by
+    simp only [line]
+    rw [splitOnByte_cons 32 _ _ hm32, splitOnByte_cons 32 _ _ ht32, splitOnByte_single 32 _ hver32]
+  let allHs := m.headers ++ [(bytesOfString "Transfer-Encoding", bytesOfString "chunked")]
+  have hallwf : ∀ h ∈ allHs, wfHeader h := by
+    intro h hh
+    simp only [allHs, List.mem_append, List.mem_singleton] at hh
+    rcases hh with hh | hh
+    · exact hhs h hh
+    · subst hh; exact te_wf
+  let body := chunksT (m.body.length + 1) m.body tr
+  have hform : encReqT m tr ++ rest = line ++ [13, 10] ++ (encHeaders allHs ++ crlf ++ (body ++ rest)) := by
+    simp [encReqT, line, ver, allHs, body, List.append_assoc]
+  have htl := takeLine_exact line (encHeaders allHs ++ crlf ++ (body ++ rest)) hline13
+  have hph := parseHeaders_enc allHs hallwf (body ++ rest) ((encHeaders allHs ++ crlf ++ (body ++ rest)).length + 1)
+    (by have := encHeaders_len allHs
+        simp only [List.length_append]; omega)
+  have hte : headerValue allHs "transfer-encoding" = some (bytesOfString "chunked") := by
+    simp only [allHs]
+    rw [headerValue_append _ _ _ (fun x hx => (hnf x hx).2)]; rfl
+  have hlow : (lower (bytesOfString "chunked") == bytesOfString "chunked") = true := by decide
+  have hfrm : framingOf true 0 allHs = .chunked := by
+    simp only [framingOf, Bool.not_true, Bool.false_and, Bool.false_eq_true, if_false, hte, hlow, if_true]
+  have hlen := chunksT_len (m.body.length + 1) m.body tr (by omega)
+  have hb := c03_chunked_trailers_enc (m.body.length + 1) m.body (by omega) tr htr rest ((body ++ rest).length + 1)
+    (by simp only [body, List.length_append]; omega)
+  rw [hform]
+  simp only [parseRequest, htl, hsplit, hver, hph, hfrm, parseBody, trailersOf, body, hb.1, hb.2, Option.map_some]
+  simp [parsedOf, hreq, hst, hch, allHs]
+
+/-- not vacuous: the chunked POST of `exReq` with two trailer fields -/
+example : ∃ r, parseRequest (encReqT exReq [(bytesOfString "X-Sum", bytesOfString "abc"), (bytesOfString "Grpc-Message", [])] ++ [71, 69, 84]) = some r ∧
+    r.1.headers.length = 5 ∧ r.2 = [71, 69, 84] :=
+  ⟨_, c03_request_trailers_enc exReq (by
+      refine ⟨rfl, ⟨by unfold noByte; decide, by unfold noByte; decide⟩, ⟨by unfold noByte; decide, by unfold noByte; decide⟩,
+        Or.inr rfl, ?_, ?_, Or.inr (Or.inl rfl), rfl⟩
+      · intro h hh
+        have : h = (bytesOfString "Host", bytesOfString "h") ∨ h = (bytesOfString "X-Q", bytesOfString "a b") := by
+          simpa [exReq] using hh
+        rcases this with rfl | rfl <;> exact ⟨by unfold noByte; decide, by unfold noByte; decide, by unfold noByte; decide, by decide⟩
+      · intro h hh
+        have : h = (bytesOfString "Host", bytesOfString "h") ∨ h = (bytesOfString "X-Q", bytesOfString "a b") := by
+          simpa [exReq] using hh
+        rcases this with rfl | rfl <;> exact ⟨by decide, by decide⟩) rfl _ (by
+      intro h hh
+      have : h = (bytesOfString "X-Sum", bytesOfString "abc") ∨ h = (bytesOfString "Grpc-Message", []) := by simpa using hh
+      rcases this with rfl | rfl <;> exact ⟨by unfold noByte; decide, by unfold noByte; decide, by unfold noByte; decide, by decide⟩) _,
+    by simp [parsedOf, exReq], rfl⟩
+
+/-- a chunked response as it travels with trailer fields -/
+def encRespT (m : Msg) (tr : List (Bytes × Bytes)) : Bytes :=
+  ((bytesOfString "HTTP/1." ++ dec m.minor) ++ 32 :: (dec m.status ++ 32 :: m.reason)) ++ [13, 10] ++
+    (encHeaders (m.headers ++ [(bytesOfString "Transfer-Encoding", bytesOfString "chunked")]) ++ crlf ++
+      chunksT (m.body.length + 1) m.body tr)
+
+/-- **Whole responses with trailer fields round-trip** (any status that may carry a body): read back as that
+    response with the trailer fields added to its header fields, reading resumes right behind the trailer part. -/
+theorem c03_response_trailers_enc (m : Msg) (rest : Bytes) (hw : WfResp m rest) (hch : m.framing = .chunked)
+    (hnb : noBodyStatus m.status = false) (tr : List (Bytes × Bytes)) (htr : ∀ h ∈ tr, wfHeader h) :
+    parseResponse (encRespT m tr ++ rest) =
+      some ({ (parsedOf m) with headers := (parsedOf m).headers ++ tr }, rest) := by
+  obtain ⟨hresp, hr13, hminor, hhs, hnf, hfr, ⟨hmeth, htarg⟩⟩ := hw
+  let ver := bytesOfString "HTTP/1." ++ dec m.minor
+  have hver : versionMinor? ver = some m.minor := by
+    rcases hminor with h | h <;> simp only [ver, h] <;> rfl
+  have hver32 : noByte 32 ver := by rcases hminor with h | h <;> simp only [ver, h] <;> unfold noByte <;> decide
+  have hver13 : noByte 13 ver := by rcases hminor with h | h <;> simp only [ver, h] <;> unfold noByte <;> decide
+  let line := ver ++ 32 :: (dec m.status ++ 32 :: m.reason)
+  have hline13 : ∀ b ∈ line, b ≠ 13 := by
+    intro b hb
+    simp only [line, List.mem_append, List.mem_cons] at hb
+    rcases hb with hb | rfl | hb | rfl | hb
+    · exact hver13 b hb
+    · decide
+    · exact dec_noByte m.status 13 (Or.inl (by decide)) b hb
+    · decide
+    · exact hr13 b hb
+  have hsplit : ∃ more, splitOnByte 32 line = ver :: dec m.status :: more := by
+    simp only [line]
+    rw [splitOnByte_cons 32 _ _ hver32, splitOnByte_cons 32 _ _ (dec_noByte m.status 32 (Or.inl (by decide)))]
+    exact ⟨_, rfl⟩
+  obtain ⟨more, hsplit⟩ := hsplit
+  let allHs := m.headers ++ [(bytesOfString "Transfer-Encoding", bytesOfString "chunked")]
+  have hallwf : ∀ h ∈ allHs, wfHeader h := by
+    intro h hh
+    simp only [allHs, List.mem_append, List.mem_singleton] at hh
+    rcases hh with hh | hh
+    · exact hhs h hh
+    · subst hh; exact te_wf
+  let body := chunksT (m.body.length + 1) m.body tr
+  have hform : encRespT m tr ++ rest = line ++ [13, 10] ++ (encHeaders allHs ++ crlf ++ (body ++ rest)) := by
+    simp [encRespT, line, ver, allHs, body, List.append_assoc]
+  have htl := takeLine_exact line (encHeaders allHs ++ crlf ++ (body ++ rest)) hline13
+  have hph := parseHeaders_enc allHs hallwf (body ++ rest) ((encHeaders allHs ++ crlf ++ (body ++ rest)).length + 1)
+    (by have := encHeaders_len allHs
+        simp only [List.length_append]; omega)
+  have hte : headerValue allHs "transfer-encoding" = some (bytesOfString "chunked") := by
+    simp only [allHs]
+    rw [headerValue_append _ _ _ (fun x hx => (hnf x hx).2)]; rfl
+  have hlow : (lower (bytesOfString "chunked") == bytesOfString "chunked") = true := by decide
+  have hnb' : (m.status / 100 == 1 || m.status == 204 || m.status == 304) = false := hnb
+  have hfrm : framingOf false m.status allHs = .chunked := by
+    simp only [framingOf, Bool.not_false, Bool.true_and, hnb', Bool.false_eq_true, if_false, hte, hlow, if_true]
+  have hlen := chunksT_len (m.body.length + 1) m.body tr (by omega)
+  have hb := c03_chunked_trailers_enc (m.body.length + 1) m.body (by omega) tr htr rest ((body ++ rest).length + 1)
+    (by simp only [body, List.length_append]; omega)
+  rw [hform]
+  simp only [parseResponse, htl, hsplit, hver, decNat_dec, hph, hfrm, parseBody, trailersOf, body, hb.1, hb.2, Option.map_some]
+  simp [parsedOf, hresp, hmeth, htarg, hch, allHs]
+
 end KsVerif.Proofs.C03Trailer
